@@ -133,7 +133,7 @@ def strip(tr):
 
 def validate(ctx, traces, shards, cfg="Trace.cfg"):
   """TLC validates the traces (sharded over several JVMs).  Returns
-  {trace index: (failing event index, violated clause)}, rejected-without-reason list."""
+  {trace index: [(event index, violated clause), ...]}, rejected-without-reason list, totals."""
   if not traces:
     return {}, [], tlc.TLCResult()
   idx = list(range(len(traces)))
@@ -158,21 +158,22 @@ def validate(ctx, traces, shards, cfg="Trace.cfg"):
       tot.generated += r.generated
       tot.depth = max(tot.depth, r.depth)
       tot.wall = max(tot.wall, r.wall)
-      why = {}
       for ln in r.prints:
         m = _bad.match(ln)
         if m:
-          why[int(m.group(1)) - 1] = (int(m.group(2)) - 1, m.group(3))
+          bad.setdefault(part[int(m.group(1)) - 1], []).append((int(m.group(2)) - 1, m.group(3)))
       for t, matched in rej:
-        if t in why:
-          bad[part[t]] = why[t]
-        else:
+        # validation goes on after a violated step; it only stops (REJECT) at an
+        # observation it cannot interpret, which has been named as well
+        if not any(k == matched for k, _ in bad.get(part[t], [])):
           silent.append((part[t], matched))
+  for t in bad:
+    bad[t].sort()
   return bad, silent, tot
 
 
 def classify(sc, tr, k, why):
-  """signature of a rejected step: violated clause + what the environment did"""
+  """signature of a violated step: clause + what the environment did"""
   ev = tr[k]
   sig = dict(clause=why, action=ev["a"], via="trace")
   hist = [e["a"] for e in tr[1:k + 1]]
@@ -207,15 +208,31 @@ def run_and_validate(ctx, label, scs, shards, procs=16):
              nontrivial=any(e["adj"] for e in tr),
              sample=dict(net=[scs[i]["n"], scs[i]["np"]], phys=scs[i]["phys"],
                          trace=[[e["a"], e["s"], e["d"], e["adj"], e["nf"]] for e in tr[1:7]]))
-  for t, (k, why) in sorted(bad.items()):
+  found = []
+  for t, lst in sorted(bad.items()):
     p = per[scs[t].get("kind", label)]
     p["rejected"] += 1
-    p["clauses"][why] += 1
-    if why == "malformed-observation" and "exc" not in traces[t][k]:
-      raise core.Machinery("malformed observation without exception: %r" % traces[t][k])
-    sig = classify(scs[t], traces[t], k, why)
-    ctx.report(sig, dict(kind="trace", scenario=scs[t], trace=traces[t], failing_step=k, clause=why,
-                         note="TLC: the step is not permitted by Topo.tla (clause named)"))
+    seen = set()
+    for k, why in lst:
+      if why in seen:
+        continue                      # one report per violated clause and history (its first step)
+      seen.add(why)
+      p["clauses"][why] += 1
+      if why == "malformed-observation" and "exc" not in traces[t][k]:
+        raise core.Machinery("malformed observation without exception: %r" % traces[t][k])
+      sig = classify(scs[t], traces[t], k, why)
+      found.append((sig, dict(kind="trace", scenario=scs[t], trace=traces[t][:k + 1], failing_step=k, clause=why,
+                              earlier_violations=[[j, w] for j, w in lst if j < k],
+                              note="TLC: the step is not permitted by Topo.tla (clause named)")))
+  # the engine keeps replay data for the first 50 reports only: one report per distinct
+  # signature first, so that every kind of failure gets its replay file
+  first, rest, sigs = [], [], set()
+  for sig, rep in found:
+    c = core.canon(sig)
+    (rest if c in sigs else first).append((sig, rep))
+    sigs.add(c)
+  for sig, rep in first[:45] + rest + first[45:]:
+    ctx.report(sig, rep)
   for k, p in per.items():
     p["clauses"] = dict(p["clauses"])
     ctx.notes["validation_" + k] = p
@@ -330,16 +347,16 @@ def validator_controls(ctx, spec_traces):
   for ln in r.prints:
     m = _bad.match(ln)
     if m:
-      why[int(m.group(1)) - 1] = m.group(3)
+      why.setdefault(int(m.group(1)) - 1, []).append(m.group(3))
   rejected = dict(rej)
   for i in range(len(spec_traces)):
-    if i in rejected:
-      raise tlc.TLCError("positive control: a behaviour simulated from Topo.tla is rejected by TraceTopo.tla "
-                         "at event %d (%s)" % (rejected[i], why.get(i)))
+    if i in rejected or i in why:
+      raise tlc.TLCError("positive control: a behaviour simulated from Topo.tla is not accepted by TraceTopo.tla "
+                         "(%s, %s)" % (rejected.get(i), why.get(i)))
   for j, (want, tr) in enumerate(ctl):
     i = len(spec_traces) + j
-    if i not in rejected or why.get(i) != want:
-      raise tlc.TLCError("negative control %d: expected TLC to reject with %s, got %s" % (j, want, why.get(i)))
+    if why.get(i) != [want]:
+      raise tlc.TLCError("negative control %d: expected TLC to name exactly %s, got %s" % (j, want, why.get(i)))
   ctx.add_model("TraceTopo: %d spec-simulated behaviours accepted, %d corrupted ones rejected"
                 % (len(spec_traces), len(ctl)), r)
   ctx.notes["validator_controls"] = dict(accepted_spec_behaviours=len(spec_traces),
